@@ -19,7 +19,7 @@ func pinned(r *core.Run) {
 	} {
 		f.Root.MustExec(q)
 	}
-	srv, err := f.E.StartServer()
+	srv, err := g11lib.StartExclusiveServer(f.E)
 	if err != nil {
 		r.Inconclusive("pinned: server did not start")
 		return
